@@ -20,6 +20,8 @@ for f in sorted(glob.glob('/verif/seeded/*/meta.json')):
         first = 'missed; reported after strengthening'
     if 'harness-repair' in v:
         first = 'harness error; reported after harness repair'
+    if v == 'neutralised-by-fix':
+        first = 'reported when kept; since neutralised by the repair of the defect it relied on'
     if v == 'missed':
         first = 'NOT reported (outside the simulated components, see below)'
         cls = 'none'
